@@ -104,3 +104,178 @@ def bool_method_df(py: PyRepo, cls: str, meth: str) -> DF:
             raise AnalysisError(f'{cls}.{meth}: path falls off the end')
         outcomes.append((tuple(conds), res))
     return DF(outcomes, f'{cls}.{meth}')
+
+
+# ----------------------------------------------------------------------------
+# substitution / instantiation methods in the vocabulary of spec/substitution.py
+
+from ..spec import substitution as SS   # noqa: E402
+from .terms import CTORS                # noqa: E402
+
+VAR_CTOR = {'ESubst': 'EVar', 'SSubst': 'SVar'}
+
+
+class PySubstCanon:
+    def __init__(self, cls: str, meth: str, params: list[str]):
+        self.cls, self.meth = cls, meth
+        self.params = params
+        if meth in ('apply_esubst', 'apply_ssubst'):
+            self.p_var, self.p_plug = ('param', params[0]), ('param', params[1])
+            self.p_delta = None
+        else:
+            self.p_var = self.p_plug = None
+            self.p_delta = ('param', params[0])
+
+    def fld(self, v):
+        if v[0] == 'attr' and v[1] == SELF:
+            return role(self.cls, v[2])
+        if v[0] == 'attr' and v[2] == 'name' and v[1][0] == 'attr' and v[1][1] == SELF and role(self.cls, v[1][2]) == 'v':
+            return 'v'
+        return None
+
+    def term(self, v):
+        if v == SELF:
+            return SS.SELF
+        if self.p_plug is not None and v == self.p_plug:
+            return SS.PLUG
+        if self.p_var is not None and v == self.p_var:
+            return SS.VAR
+        r = self.fld(v)
+        if r is not None:
+            return SS.F(r)
+        if v[0] == 'call' and v[1][0] == 'name' and v[1][1] in CTORS:
+            ctor = v[1][1]
+            fields = CTORS[ctor]
+            vals = {}
+            for i, a in enumerate(v[2]):
+                vals[fields[i]] = a
+            for kw, a in v[3]:
+                vals[kw] = a
+            if set(vals) != set(fields) and ctor != 'MetaVar':
+                raise AnalysisError(f'{self.cls}.{self.meth}: {ctor}(...) built with fields {sorted(vals)}')
+            out = []
+            for f in fields:
+                a = vals.get(f)
+                if a is None:
+                    out.append(('empty',))
+                    continue
+                if f == 'var' and ctor in VAR_CTOR:
+                    # the substituted variable is stored as an EVar / SVar object of the matching sort
+                    if a[0] == 'call' and a[1] == ('name', VAR_CTOR[ctor]) and len(a[2]) == 1:
+                        out.append(self.term(a[2][0]))
+                    elif a == ('attr', SELF, 'var'):
+                        out.append(SS.F('v'))
+                    else:
+                        out.append(('wrong-sort-var', self.term(a[2][0]) if a[0] == 'call' and a[2] else show(a)))
+                else:
+                    out.append(self.term(a))
+            return ('C', ctor) + tuple(out)
+        if v[0] == 'call' and v[1][0] == 'attr' and v[1][2] == self.meth and self.meth.startswith('apply_'):
+            tgt = v[1][1]
+            r = self.fld(tgt)
+            if r is not None and v[2] == (self.p_var, self.p_plug):
+                return SS.REC(r)
+            return (self.meth[6:], self.term(tgt)) + tuple(self.term(a) for a in v[2])
+        if v[0] == 'call' and v[1][0] == 'attr' and v[1][2] in ('apply_esubst', 'apply_ssubst'):
+            return (v[1][2][6:], self.term(v[1][1])) + tuple(self.term(a) for a in v[2])
+        if v[0] == 'call' and v[1][0] == 'attr' and v[1][2] == 'instantiate' and len(v[2]) == 1:
+            tgt = v[1][1]
+            r = self.fld(tgt)
+            if r is not None and v[2][0] == self.p_delta:
+                return SS.INST(r)
+            return ('instantiate', self.term(tgt), show(v[2][0]))
+        if v[0] == 'call' and v[1] == ('attr', SELF, 'simplify') and not v[2]:
+            return ('expansion',)
+        if v[0] == 'sub' and self.p_delta is not None and v[1] == self.p_delta and v[2] == ('attr', SELF, 'name'):
+            return ('lookup',)
+        raise AnalysisError(f'{self.cls}.{self.meth}: result outside the analysed subset: {show(v)}')
+
+    def cond(self, c, pol):
+        """-> (atom, polarity) or None to ignore"""
+        if c[0] == 'cmp' and c[1] == '==':
+            roles = []
+            for z in (c[2], c[3]):
+                if z == self.p_var:
+                    roles.append('var')
+                else:
+                    r = self.fld(z)
+                    if r is None:
+                        raise AnalysisError(f'{self.cls}.{self.meth}: comparison outside the subset: {show(c)}')
+                    roles.append(r)
+            roles.sort()
+            return ('eq', roles[0], roles[1]), pol
+        if c[0] == 'cmp' and c[1] == 'in':
+            x, lst = c[2], c[3]
+            if x[0] == 'call' and x[1][0] == 'name' and x[1][1] in ('EVar', 'SVar') and x[2] == (self.p_var,):
+                r = self.fld(lst)
+                if r is not None:
+                    return ('in', 'var', r), pol
+            if self.p_delta is not None and lst == self.p_delta and x == ('attr', SELF, 'name'):
+                return ('has',), pol
+        if self.p_delta is not None and c == self.p_delta:
+            return ('empty',), not pol
+        if c[0] == 'call' and c[1] == ('attr', SELF, 'can_be_replaced_by'):
+            return None
+        raise AnalysisError(f'{self.cls}.{self.meth}: condition outside the analysed subset: {show(c)}')
+
+
+def subst_method_outcomes(py: PyRepo, cls: str, meth: str):
+    fn = py.method(cls, meth, 'pattern')
+    params = [a.arg for a in fn.args.args[1:]]
+    cz = PySubstCanon(cls, meth, params)
+    ev = PyEval()
+    try:
+        paths = ev.paths(fn)
+    except Decline as d:
+        raise AnalysisError(f'{cls}.{meth}: outside the analysed subset: {d}')
+    out = []
+    for p in paths:
+        conds = set()
+        skip = False
+        for c, pol in p.conds:
+            r = cz.cond(c, pol)
+            if r is None:
+                if not pol:
+                    skip = True      # the branch in which the stub constraint check fails
+                continue
+            conds.add(r)
+        if skip:
+            continue
+        if p.end[0] == 'return':
+            out.append((conds, cz.term(p.end[1])))
+        elif p.end[0] == 'raise':
+            out.append((conds, 'raise'))
+        else:
+            raise AnalysisError(f'{cls}.{meth}: path falls off the end')
+    return out
+
+
+def notation_op_verdict(py: PyRepo, op: str):
+    """How Instantiate.<op> relates to the operation on the expansion.
+    -> ('delegates', '') | ('violation', reason) | ('undecided', reason)
+    Decidable necessary condition for a non-delegating body: the stored plugs are part of the expansion, so a result that
+    carries `self.inst` over unchanged leaves occurrences inside the plugs untouched."""
+    fn = py.method('Instantiate', op, 'pattern')
+    params = tuple(('param', a.arg) for a in fn.args.args[1:])
+    ev = PyEval()
+    rets = [p for p in ev.paths(fn) if p.end[0] == 'return']
+    want = ('call', ('attr', ('call', ('attr', SELF, 'simplify'), (), ()), op), params, ())
+    if rets and all(p.end[1] == want for p in rets):
+        return 'delegates', ''
+    INST = ('attr', SELF, 'inst')
+
+    def carries_inst_unchanged(v) -> bool:
+        if v[0] == 'call' and v[1] == ('name', 'Instantiate') and len(v[2]) == 2:
+            m = v[2][1]
+            while m[0] == 'call' and m[1] == ('name', 'frozendict') and len(m[2]) == 1:
+                m = m[2][0]
+            if m == INST:
+                return True
+        return any(carries_inst_unchanged(x) for x in v if isinstance(x, tuple) and x)
+
+    for p in rets:
+        if carries_inst_unchanged(p.end[1]):
+            return 'violation', (f'Instantiate.{op} returns {show(p.end[1])}: the stored plugs (self.inst) are carried over unchanged, '
+                                 f'so occurrences inside the arguments of the notation are not affected, unlike in the expansion')
+    return 'undecided', (f'Instantiate.{op} is not the delegation self.simplify().{op}(..); whether it equals the operation on the '
+                         f'expansion cannot be decided statically')
